@@ -128,7 +128,7 @@ def copy_bits(with_asserts: bool):
         g = lambda nm: ex.to_int(ex.vars[ex.names[nm]]).t  # noqa: E731
         return app("-", g("last_bit"), g("src_off"))
 
-    return CContract("nunavutCopyBits", requires, ensures, loops={0: CLoop(inv, mem_inv, variant)}, timeout=60)
+    return CContract("nunavutCopyBits", requires, ensures, loops={0: CLoop(inv, mem_inv, variant)}, timeout=180)
 
 
 def get_bits():
@@ -268,7 +268,7 @@ def float16_unpack():
             ]
         return {"extra_fn": extra, "extra_theory": "fp"}
 
-    return CContract("nunavutFloat16Unpack", lambda cx: [], ensures, param_rep={"value": "B"}, theory="fp", timeout=120)
+    return CContract("nunavutFloat16Unpack", lambda cx: [], ensures, param_rep={"value": "B"}, theory="fp", timeout=360)
 
 
 def float16_pack():
@@ -296,7 +296,7 @@ def float16_pack():
         # pack16 is only a *name* for this deterministic, total function's result (used by SetF16's contract)
         return {"result": ("B", f"(pack16 {xb})"), "result_is_definition": True, "extra_fn": extra, "extra_theory": "fp"}
 
-    c = CContract("nunavutFloat16Pack", lambda cx: [], ensures, theory="fp", timeout=120)
+    c = CContract("nunavutFloat16Pack", lambda cx: [], ensures, theory="fp", timeout=360)
     return c
 
 
